@@ -387,6 +387,11 @@ func (c *codegen) analyzeFuncAndGlobalVarUsage() funcUsage {
 					return false // Program is invalid.
 				}
 
+				// A package may have several init() functions (also in several files):
+				// each of them needs its own traversal.
+				if isInitFunc(n) {
+					name = fmt.Sprintf("%s#%d", name, len(nodeCache))
+				}
 				// exported functions and methods are always assumed to be used
 				if isMain && n.Name.IsExported() || isInitFunc(n) || isDeployFunc(n) {
 					diff[name] = true
